@@ -9,7 +9,7 @@ checks = {
          "Every step of generated histories (all alloc flavours, drop, detach, explicit dealloc, rewind, clear, truncate, reopen, clones) is checked by a shadow map: every live accessible range inside [data_offset, allocated), pairwise disjoint, disjoint from prefix/free-list segments, bytes equal to what the owner last wrote, on every runner (both flavours, three backends, both layouts). Held-on-observed only.",
          "Trusts the harness' shadow map and byte patterns; histories respect the documented contracts of the unsafe calls; ASan/Miri slices see accesses outside the backing store, the shadow map sees those inside.", "§3 E-SEQ, §4 C01"),
  "C03": (SEQ, "exploration", "runtime monitoring: per-allocation assertions on capacity/offset/address over generated histories",
-         "Asserts on every successful allocation: exact capacity (alloc_bytes, alloc::<T>), capacity >= size_of::<T>()+n and offset alignment (aligned/typed), pointer == base+offset and address alignment when align <= maximum alignment; for fresh and recycled memory (both counted); zero-sized requests succeed without consuming space even on full arenas.",
+         "Asserts on every successful allocation: exact capacity (alloc_bytes, alloc::<T>), capacity >= size_of::<T>()+n and offset alignment (aligned/typed), pointer == base+offset and address alignment when align <= maximum alignment; for fresh and recycled memory (both counted); zero-sized requests succeed without consuming space even on full arenas. The same assertions run at every allocation return of every thread under the hook-serialised scheduler (E-SCHED families F: threads race aligned/typed requests of mixed alignments through fresh space so the padding changes between cursor load and CAS; B: typed requests against the free list).",
          "Alignment of a zero-sized T is not asserted (the statement leaves it open); address alignment only when align_of::<T>() <= max(maximum_alignment, 8) (Vec) or page (mmap).", "§4 C03"),
  "C05": (SEQ, "exploration", "runtime monitoring: state/bytes/free-list comparison across drop+reopen inside generated file-backed histories",
          "File-backed histories are cut at random points by close + reopen (map_mut / map_copy / map / map_copy_read_only; capacity same, larger, absent; with/without flush; create flag; reopened by the other flavour): allocated, discarded, data_offset, minimum segment size (options carry a different one), magic version, free-list snapshot and memory()[..allocated] must be equal; shadow map and model carry on, so post-reopen allocations may not overlap pre-close live ranges and freed ranges must be reusable.",
@@ -19,15 +19,15 @@ checks = {
          "Provenance classes are inferred by the harness from the history.", "§4 C08"),
  "C10": (SEQ, "exploration", "runtime monitoring: structural free-list invariants + sequential policy model checked after every step",
          "After every step the free-list snapshot must be complete, 8-aligned, inside the data area below the cursor, disjoint from other segments and live allocations, ordered by size for the policy, and equal (as a set) to the reference model; every slow-path allocation must come from a segment the policy allows, fail only when the policy says so, and split/keep the remainder by the node + minimum-segment-size rule; Freelist::None never reuses.",
-         "For typed/aligned requests the statement does not fix the padding demanded, so a band of outcomes is accepted; minimum segment size 0 is not generated.", "§4 C10"),
+         "For typed/aligned requests the statement does not fix the padding demanded, so a band of outcomes is accepted.", "§4 C10"),
  "C11": (SEQ, "exploration", "runtime monitoring: lock-step differential execution sync::Arena vs unsync::Arena",
          "The same generated history runs on both flavours in lock-step; result kind, offset, capacity, buffer extent, allocated, discarded, remaining, minimum segment size and the free-list snapshot are compared after every step (numbers inside InsufficientSpace are not compared).",
          "maximum_retries 0 is outside every quantifier and not generated.", "§4 C11"),
  "C13": (SEQ, "exploration", "runtime monitoring: release-effect oracle, refs() accounting, drop counter, counting global allocator and /proc/self/maps watcher",
-         "At every drop the delta of (cursor, free list, discarded) must equal one release of exactly (buffer_offset, buffer_capacity) or nothing for detached handles; a needs_drop value is dropped exactly once; refs() equals live arena values + owned handles after every step; at teardown (random order, original arena possibly first) the Vec backing block is freed exactly once after the last holder (counting allocator), mappings disappear exactly then (/proc/self/maps), remove_on_drop files exist until then and not after. The overflow-checked build also turns a double close of the file descriptor into an abort.",
-         "Single-threaded part here; the multi-threaded clone/drop interleavings are exercised by the E-SCHED / sanitizer runs of C12.", "§4 C13"),
+         "At every drop the delta of (cursor, free list, discarded) must equal one release of exactly (buffer_offset, buffer_capacity) or nothing for detached handles; a needs_drop value is dropped exactly once; refs() equals live arena values + owned handles after every step; at teardown (random order, original arena possibly first) the Vec backing block is freed exactly once after the last holder (counting allocator), mappings disappear exactly then (/proc/self/maps), remove_on_drop files exist until then and not after. The overflow-checked build also turns a double close of the file descriptor into an abort. After teardown of a file-backed history the file is reopened once more and cursor / discarded / free list must equal the model with the teardown releases applied (reopen-after-teardown). Multi-threaded part: E-SCHED families A and B with refs() accounting under a quiescence guard, creator-drops-first runs, and the counting allocator checked when the last holder goes (backing never / twice / early freed); thorough adds free-running ASan runs with the address-remembering monitors off.",
+         "refs() is compared under concurrency only at instants where no other thread is inside an operation that changes it; TSan/Miri teardown ordering belongs to C12.", "§4 C13"),
  "C16": (SEQ, "exploration", "runtime monitoring: closed-form layout reference, accessor table, reserved-prefix pattern, cross-backend memory comparison",
-         "Per history: data_offset() vs Options::data_offset{,_unify} and a closed-form reference, accessor table vs constructor, first allocation at the first aligned offset, reserved prefix (pre-filled with a pattern) unchanged after every step, remaining() == capacity()-allocated() after every step, and Vec / anonymous-map / file arenas with the unified layout driven in lock-step must have identical memory() after every step.",
+         "Per history: data_offset() vs Options::data_offset{,_unify} and a closed-form reference, accessor table vs constructor, first allocation at the first aligned offset, reserved prefix (pre-filled with a pattern) unchanged after every step, remaining() == capacity()-allocated() after every step, and Vec / anonymous-map / file arenas with the unified layout driven in lock-step must have identical memory() after every step; at every operation boundary data_offset() equals the closed form for the layout actually in effect, allocated() >= data_offset() and no handle starts below it (one third of the histories keep the plain layout). Static sweep (layout.rs): reserved 0..=4096 x layout x backend x flavour against the closed form, and every capacity 0..=prefix+2 refused exactly when below the prefix.",
          "4 padding bytes at the end of the in-memory header are masked in image comparisons (padding of a struct written by ptr::write is unspecified).", "§4 C16"),
  "C17": (SEQ, "exploration", "runtime monitoring: reference clamp in i128 + cleared-vs-fresh differential twin",
          "rewind(pos) over boundary-dense Start/End/Current values in every arena state must land on clamp(target, data_offset, capacity) and change nothing else; after clear() cursor/list/discarded/data area/prefix must be pristine and a freshly created twin arena (same options, current minimum segment size) is driven in lock-step and must be indistinguishable (results, state, free list, memory below the cursor).",
